@@ -609,9 +609,40 @@ func c19Pair(w *World, r *Report, rule string, closeOnly bool, n *types.Named, e
 		}
 		return nil
 	}
-	isEvent := func(in ssa.Instruction) bool {
+	// `for i := range [...]io.Closer{sc.R, sc.W} { LogClose(halves[i]) }`: a loop over a fixed array of the halves
+	// closes each of them exactly once (shape verified by fixedArrayCloseLoop); such a call is not a path event
+	loopCloses := map[*types.Var]int{}
+	loopCall := map[ssa.Instruction]bool{}
+	allInstrs(fn, func(in ssa.Instruction) {
 		c, ok := in.(ssa.CallInstruction)
 		if !ok {
+			return
+		}
+		var elems []ssa.Value
+		if isCloseOn(w, c, func(v ssa.Value) bool {
+			el, ok := fixedArrayCloseLoop(fn, c, v)
+			if ok {
+				elems = el
+			}
+			return ok
+		}) {
+			all := true
+			for _, el := range elems {
+				if fieldOfVal(el) == nil {
+					all = false
+				}
+			}
+			if all {
+				loopCall[in] = true
+				for _, el := range elems {
+					loopCloses[fieldOfVal(el)]++
+				}
+			}
+		}
+	})
+	isEvent := func(in ssa.Instruction) bool {
+		c, ok := in.(ssa.CallInstruction)
+		if !ok || loopCall[in] {
 			return false
 		}
 		return isCloseOn(w, c, func(v ssa.Value) bool { return fieldOfVal(v) != nil })
@@ -624,6 +655,9 @@ func c19Pair(w *World, r *Report, rule string, closeOnly bool, n *types.Named, e
 		}
 		paths++
 		cnt := map[*types.Var]int{}
+		for f, k := range loopCloses {
+			cnt[f] += k
+		}
 		for _, ev := range e.State.Events {
 			c := ev.(ssa.CallInstruction)
 			cc := c.Common()
@@ -1018,4 +1052,249 @@ func c19OnlyCloseClosesInner(w *World, r *Report, s safeType) {
 	}
 	sort.Strings(bad)
 	r.Check(len(bad) == 0, "R19.6", key, w.Pos(s.T.Obj().Pos()), fmt.Sprintf("%d other method(s) of the wrapper, none closes the wrapped resource", n), strings.Join(bad, "; "))
+}
+
+// fixedArrayCloseLoop: v is `arr[i]` of a local fixed-size array that is filled element by element before a
+// `for i := range arr` loop, c (the close of v) runs exactly once in every iteration, and the loop has no exit but
+// its head (no break, return or panic in the body) and is itself on every path through the function (its head
+// dominates every return). Returns the values stored into the array: each is closed exactly once.
+func fixedArrayCloseLoop(fn *ssa.Function, c ssa.CallInstruction, v ssa.Value) ([]ssa.Value, bool) {
+	var ia *ssa.IndexAddr
+	for _, root := range provenance(v, provOpts{}) {
+		if u, ok := root.(*ssa.UnOp); ok && u.Op == token.MUL {
+			if x, ok := u.X.(*ssa.IndexAddr); ok {
+				ia = x
+			}
+		}
+	}
+	if ia == nil {
+		return nil, false
+	}
+	arr, ok := ia.X.(*ssa.Alloc)
+	if !ok || arr.Parent() != fn {
+		return nil, false
+	}
+	pt, ok := arr.Type().Underlying().(*types.Pointer)
+	if !ok {
+		return nil, false
+	}
+	at, ok := pt.Elem().Underlying().(*types.Array)
+	if !ok || at.Len() == 0 || at.Len() > 8 {
+		return nil, false
+	}
+	n := at.Len()
+	ci, _ := c.(ssa.Instruction)
+	cyc := cycleThrough(ci.Block())
+	if cyc == nil {
+		return nil, false
+	}
+	// the element stores: one per constant index, all outside the cycle; no other use of the array but element
+	// reads; a composite literal is built in a temporary array and copied over as a whole
+	var arrayElems func(arr *ssa.Alloc, depth int) []ssa.Value
+	arrayElems = func(arr *ssa.Alloc, depth int) []ssa.Value {
+		elems := make([]ssa.Value, n)
+		if arr.Referrers() == nil || depth > 2 {
+			return nil
+		}
+		whole := false
+		for _, ref := range *arr.Referrers() {
+			switch x := ref.(type) {
+			case *ssa.DebugRef:
+			case *ssa.UnOp:
+				// a load of the whole array: only to be copied into another local array (or unused)
+				if x.Op != token.MUL {
+					return nil
+				}
+				if x.Referrers() != nil {
+					for _, r2 := range *x.Referrers() {
+						st, ok := r2.(*ssa.Store)
+						if !ok || st.Val != ssa.Value(x) {
+							if _, isDbg := r2.(*ssa.DebugRef); isDbg {
+								continue
+							}
+							return nil
+						}
+						if dst, ok := st.Addr.(*ssa.Alloc); !ok || dst.Parent() != fn {
+							return nil
+						}
+					}
+				}
+			case *ssa.Store:
+				// the whole array assigned from another local array
+				if x.Addr != ssa.Value(arr) || whole || cyc[x.Block()] {
+					return nil
+				}
+				ld, ok := x.Val.(*ssa.UnOp)
+				if !ok || ld.Op != token.MUL {
+					return nil
+				}
+				src, ok := ld.X.(*ssa.Alloc)
+				if !ok || src.Parent() != fn {
+					return nil
+				}
+				el := arrayElems(src, depth+1)
+				if el == nil {
+					return nil
+				}
+				whole = true
+				copy(elems, el)
+			case *ssa.IndexAddr:
+				if x.Referrers() == nil {
+					continue
+				}
+				for _, r2 := range *x.Referrers() {
+					switch y := r2.(type) {
+					case *ssa.Store:
+						k, isC := constIntVal(x.Index)
+						if y.Addr != ssa.Value(x) || !isC || k < 0 || k >= n || elems[k] != nil || cyc[y.Block()] || whole {
+							return nil
+						}
+						elems[k] = y.Val
+					case *ssa.UnOp:
+						if y.Op != token.MUL {
+							return nil
+						}
+					case *ssa.DebugRef:
+					default:
+						return nil
+					}
+				}
+			default:
+				return nil
+			}
+		}
+		for _, e := range elems {
+			if e == nil {
+				return nil
+			}
+		}
+		return elems
+	}
+	elems := arrayElems(arr, 0)
+	if elems == nil {
+		return nil, false
+	}
+	// the index: phi(-1, idx+1)+1 compared with the constant length in the loop head (go/ssa's range-over-array form),
+	// or phi(0, idx+1) compared with the length
+	head := (*ssa.BasicBlock)(nil)
+	for b := range cyc {
+		for _, p := range b.Preds {
+			if !cyc[p] {
+				if head != nil && head != b {
+					return nil, false // two entries
+				}
+				head = b
+			}
+		}
+	}
+	if head == nil {
+		return nil, false
+	}
+	// exits only from the head
+	for b := range cyc {
+		for _, sc := range b.Succs {
+			if !cyc[sc] && b != head {
+				return nil, false
+			}
+		}
+		if len(b.Instrs) > 0 {
+			switch b.Instrs[len(b.Instrs)-1].(type) {
+			case *ssa.Return, *ssa.Panic:
+				return nil, false
+			}
+		}
+	}
+	ifi, ok := head.Instrs[len(head.Instrs)-1].(*ssa.If)
+	if !ok {
+		return nil, false
+	}
+	cmp, ok := ifi.Cond.(*ssa.BinOp)
+	if !ok || cmp.Op != token.LSS {
+		return nil, false
+	}
+	if k, isC := constIntVal(cmp.Y); !isC || k != n {
+		return nil, false
+	}
+	// cmp.X is the index used by the element read, and it advances by one per iteration from 0
+	idxOK := func(x ssa.Value) bool {
+		var phi *ssa.Phi
+		start := int64(0)
+		if b, ok := x.(*ssa.BinOp); ok && b.Op == token.ADD {
+			if k, isC := constIntVal(b.Y); isC && k == 1 {
+				if p, ok := b.X.(*ssa.Phi); ok {
+					phi, start = p, -1
+					// phi(-1, x)
+					for i, e := range p.Edges {
+						if cyc[p.Block().Preds[i]] {
+							if e != x {
+								return false
+							}
+						} else if k2, isC2 := constIntVal(e); !isC2 || k2 != start {
+							return false
+						}
+					}
+					return true
+				}
+			}
+		}
+		if p, ok := x.(*ssa.Phi); ok {
+			phi = p
+			for i, e := range phi.Edges {
+				if cyc[phi.Block().Preds[i]] {
+					b, ok := e.(*ssa.BinOp)
+					if !ok || b.Op != token.ADD || b.X != ssa.Value(phi) {
+						return false
+					}
+					if k, isC := constIntVal(b.Y); !isC || k != 1 {
+						return false
+					}
+				} else if k2, isC2 := constIntVal(e); !isC2 || k2 != 0 {
+					return false
+				}
+			}
+			return true
+		}
+		return false
+	}
+	if cmp.X != ia.Index || !idxOK(cmp.X) {
+		return nil, false
+	}
+	// the close runs once per iteration: its block dominates every block of the cycle that jumps back to the head
+	for _, p := range head.Preds {
+		if cyc[p] && !ci.Block().Dominates(p) && ci.Block() != p {
+			return nil, false
+		}
+	}
+	if cycleThroughWithout(ci.Block(), head) {
+		return nil, false // an inner loop around the call
+	}
+	// the loop is on every path: its head dominates every return
+	for _, b := range fn.Blocks {
+		if len(b.Instrs) == 0 {
+			continue
+		}
+		if _, isRet := b.Instrs[len(b.Instrs)-1].(*ssa.Return); isRet && !head.Dominates(b) {
+			return nil, false
+		}
+	}
+	return elems, true
+}
+
+// cycleThroughWithout: is there a cycle through b that avoids `avoid`?
+func cycleThroughWithout(b, avoid *ssa.BasicBlock) bool {
+	seen := map[*ssa.BasicBlock]bool{}
+	st := append([]*ssa.BasicBlock(nil), b.Succs...)
+	for len(st) > 0 {
+		x := st[len(st)-1]
+		st = st[:len(st)-1]
+		if x == avoid || seen[x] {
+			continue
+		}
+		if x == b {
+			return true
+		}
+		seen[x] = true
+		st = append(st, x.Succs...)
+	}
+	return false
 }
